@@ -71,8 +71,8 @@ func hostile(t *rapid.T, label string, pool []string) string {
 func gen(t *rapid.T) Case {
 	cfg := pat.GenCfg(t, true)
 	c := Case{Icpt: cfg.IcptName, Trace: rapid.IntRange(0, 3).Draw(t, "trace") == 0}
-	c.Pool = pat.GenPool(t, cfg, rapid.IntRange(2, 10).Draw(t, "npool"))
-	c.Ops = life.GenOps(t, cfg, c.Pool, rapid.IntRange(0, 15).Draw(t, "nops"),
+	c.Pool = pat.GenPool(t, cfg, rapid.IntRange(2, rig.Up(10)).Draw(t, "npool"))
+	c.Ops = life.GenOps(t, cfg, c.Pool, rapid.IntRange(0, rig.Up(15)).Draw(t, "nops"),
 		life.GenOpts{Facades: true, Hostile: true, NewMethods: false, Trace: c.Trace})
 	for i, n := 0, rapid.IntRange(0, 8).Draw(t, "nhostops"); i < n; i++ {
 		c.HostOps = append(c.HostOps, HostOp{Del: rapid.IntRange(0, 3).Draw(t, "hdel") == 0, Domain: rapid.SampledFrom(domains).Draw(t, "domain")})
